@@ -52,6 +52,12 @@ def check_vc(pc, goal, timeout_ms=None, want_model=True, use_cvc5=True) -> VCRes
     if r == z3.sat:
         return VCResult("refuted", "z3", dt, model=s.model() if want_model else None)
     reason = s.reason_unknown()
+    try:
+        w = random_refute(pc, goal)
+    except z3.Z3Exception:
+        w = None
+    if w is not None:
+        return VCResult("refuted", "random-instantiation", dt, model=None, reason="falsified by concrete instantiation: " + str(dict(list(w.items())[:40])))
     if use_cvc5:
         try:
             smt2 = s.to_smt2()
@@ -66,6 +72,65 @@ def check_vc(pc, goal, timeout_ms=None, want_model=True, use_cvc5=True) -> VCRes
         except Exception as e:  # noqa
             reason += f"; cvc5 fallback failed: {e}"
     return VCResult("unknown", "z3", dt, reason=reason)
+
+
+def free_consts(exprs):
+    seen, out, stack = set(), {}, list(exprs)
+    while stack:
+        x = stack.pop()
+        i = x.get_id()
+        if i in seen:
+            continue
+        seen.add(i)
+        if z3.is_quantifier(x):
+            return None          # not ground-evaluable
+        if z3.is_app(x):
+            if x.num_args() == 0 and x.decl().kind() == z3.Z3_OP_UNINTERPRETED:
+                out[x.decl().name()] = x
+            elif x.decl().kind() == z3.Z3_OP_UNINTERPRETED:
+                return None      # uninterpreted function application
+            stack.extend(x.children())
+    return out
+
+
+def random_refute(pc, goal, tries=24, seed=0):
+    """Refuter (DESIGN 2.5.3a): concrete random instantiation of a ground VC over
+    bit-vectors / ints / bools.  Returns {name: value} falsifying the VC, or None."""
+    import random
+    consts = free_consts(list(pc) + [goal])
+    if not consts:
+        return None
+    rnd = random.Random(seed)
+    for k in range(tries):
+        sub = []
+        vals = {}
+        for name, c in consts.items():
+            srt = c.sort()
+            if z3.is_bv_sort(srt):
+                w = srt.size()
+                v = rnd.choice([0, 1, (1 << w) - 1, rnd.getrandbits(w), rnd.getrandbits(w)]) if k else rnd.getrandbits(w)
+                sub.append((c, z3.BitVecVal(v, w)))
+            elif srt == z3.IntSort():
+                v = rnd.choice([0, 1, -1, rnd.randint(0, 300), rnd.randint(-5, 70000)])
+                sub.append((c, z3.IntVal(v)))
+            elif srt == z3.BoolSort():
+                v = rnd.random() < 0.5
+                sub.append((c, z3.BoolVal(v)))
+            else:
+                return None
+            vals[name] = v
+        ok = True
+        for p_ in pc:
+            r = z3.simplify(z3.substitute(p_, *sub))
+            if not z3.is_true(r):
+                ok = False
+                break
+        if not ok:
+            continue
+        g = z3.simplify(z3.substitute(goal, *sub))
+        if z3.is_false(g):
+            return vals
+    return None
 
 
 def model_value(model, term):
